@@ -33,7 +33,24 @@ def prepare(_):
                 geo.append((f, tri, kind, (lon, lat), res, cell))
     c7 = a5.lonlat_to_cell((12.5, 41.9), 7)
     sib = a5.cell_to_children(a5.cell_to_parent(c7, 5), 7)
-    return {'geo': geo, 'c7': c7, 'sib': sib, 'res0': a5.get_res0_cells()}
+    # tie clusters: points lying exactly on a cell's boundary (ring vertices: corners and edge midpoints, shared by 2-5 cells)
+    # together with the centres of that cell and of the cells around it, all at one resolution
+    clusters = []
+    for f, tri, kind, p, res, cell in geo:
+        if kind == 'in' and tri == 3:
+            for r in (2, 3, 5, 8, 13, 21, 29):
+                x = a5.lonlat_to_cell(p, r)
+                ring = a5.cell_to_boundary(x, {'segments': 2, 'closed_ring': False})
+                cx = a5.cell_to_lonlat(x)
+                around = {x}
+                for v in ring:
+                    dx, dy = v[0] - cx[0], v[1] - cx[1]
+                    for ca, sa in ((1.0, 0.0), (0.5, 0.866), (0.5, -0.866)):
+                        q = (v[0] + 0.3 * (ca * dx - sa * dy), v[1] + 0.3 * (sa * dx + ca * dy))
+                        if -90 <= q[1] <= 90:
+                            around.add(a5.lonlat_to_cell(q, r))
+                clusters.append((f'f{f:02d}r{r:02d}', r, [tuple(v) for v in ring], [tuple(a5.cell_to_lonlat(y)) for y in sorted(around)]))
+    return {'geo': geo, 'c7': c7, 'sib': sib, 'res0': a5.get_res0_cells(), 'clusters': clusters}
 
 
 def build_menu(k, faces=None, tris=None):
@@ -57,6 +74,11 @@ def pure_menu(k):
         ('uncompact', 'uncompact', ([sib[0], sib[5]], 9), True),
         ('cell_to_children', 'cell_to_children', (c7, 9), True),
         ('cell_to_children:world', 'cell_to_children', (0, 1), True),
+        ('cell_to_children:quad_a', 'cell_to_children', (c7,), False),
+        ('cell_to_children:quad_b', 'cell_to_children', (sib[1],), False),
+        ('cell_to_children:quad_mut', 'cell_to_children', (sib[2],), True),
+        ('uncompact:one_level', 'uncompact', ([sib[3]], 8), False),
+        ('compact:plain', 'compact', (list(sib[:7]),), False),
         ('cell_to_parent', 'cell_to_parent', (c7, 1), False),
         ('get_res0_cells', 'get_res0_cells', (), True),
         ('get_resolution', 'get_resolution', (c7,), False),
@@ -170,7 +192,7 @@ def run(tier, t0):
         acc.n['saturation_events'] += len(order) + len(full)
     # ---- BFS depth 2 (and 3 on a sub-menu) with state-hash deduplication
     if tier == 'quick':
-        menu2 = build_menu(k, faces={0, 1, 6, 11}, tris={0, 9})
+        menu2 = build_menu(k, faces={0, 6, 11}, tris={0, 9})
     else:
         menu2 = full
     lvl1_hist = [[n] for n in sorted({v[0] for v in seen.values() if len(v) == 1})]
@@ -183,11 +205,46 @@ def run(tier, t0):
     sub = [ev for ev in menu2 if ev[0].split(':')[0] in ('lonlat_to_cell', 'cell_to_boundary')
            and any(t in ev[0] for t in ('f00t0', 'f00t9', 'f01t0', 'f01t9', 'f11t0', 'f11t9', 'f06t4'))]
     sub = sub[:24 if tier == 'quick' else 40] + pure_menu(k)[:3]
+    sub += [ev for ev in menu2 if ev[0].startswith('cell_to_children:quad')]
     subnames = {ev[0] for ev in sub}
     tasks3 = [([by_name[n] for n in h], sub, expected) for h in frontier2 if all(n in subnames for n in h)]
     for (hist, _, _), res in zip(tasks3, many(history.expand, tasks3)):
         record([e[0] for e in hist], sub, res)
     acc.strata['depth3_histories_expanded'] = len(tasks3)
+    # ---- tie clusters: all histories of length 2 inside each cluster (boundary points x centres of the surrounding cells)
+    cl_tasks = []
+    cl_menus = []
+    for tag, r, bpts, centres in k['clusters']:
+        if tier == 'quick' and r not in (3, 8, 29):
+            continue
+        evs = [(f'tie:{tag}:b{i}', 'lonlat_to_cell', (bp, r), False) for i, bp in enumerate(bpts)]
+        evs += [(f'tie:{tag}:c{i}', 'lonlat_to_cell', (cp, r), False) for i, cp in enumerate(centres)]
+        cl_menus.append(evs)
+    first = many(history.expand, [([], evs, None) for evs in cl_menus])
+    for evs, (hh, outs, _) in zip(cl_menus, first):
+        for i, res, prob, h in outs:
+            expected[evs[i][0]] = res
+            acc.n['transitions'] += 1
+            if res[0] != 'ok':
+                acc.violation(f'c17:raises:{evs[i][0]}', f'{evs[i][0]} raises from the pristine state: {res[1]}', {'history': [], 'event': evs[i][0], 'cluster': evs})
+            else:
+                acc.n['validated'] += 1
+        for e in evs:
+            cl_tasks.append(([e], evs, expected))
+    for (hist, evs, _), res in zip(cl_tasks, many(history.expand, cl_tasks)):
+        hh, outs, problems = res
+        for i, r2, prob, h in outs:
+            acc.n['transitions'] += 1
+            name = evs[i][0]
+            if r2 != expected[name] or prob:
+                acc.violation(f'c17:{hist[0][0]}->{name}', f'after {hist[0][0]} {hist[0][2]}: {name} {evs[i][2]} ' + (prob or 'returned a value different from the pristine single call'),
+                              {'history': [hist[0][0]], 'event': name, 'cluster': evs})
+            else:
+                acc.n['validated'] += 1
+            if h is not None and h not in seen:
+                seen[h] = [hist[0][0], name]
+    acc.strata['tie_clusters'] = len(cl_menus)
+    acc.strata['tie_cluster_histories'] = len(cl_tasks)
     acc.n['states'] = len(seen)
     acc.n['nontrivial'] = len(seen)
     acc.n['menu_events'] = len(full)
@@ -212,6 +269,13 @@ def replay(case):
                 raise res
             out[i] = res
         return out
+    if 'cluster' in case:
+        evs = [(e[0], e[1], (tuple(e[2][0]), e[2][1]), e[3]) for e in case['cluster']]
+        byn = {e[0]: e for e in evs}
+        ev = byn[case['event']]
+        _, lvl1, _ = many(history.expand, [([], [ev], None)])[0]
+        _, outs, _ = many(history.expand, [([byn[n] for n in case['history']], [ev], None)])[0]
+        return [('c17:' + case['event'], 'value differs from the pristine single call')] if outs[0][1] != lvl1[0][1] else []
     k = many(prepare, [None])[0]
     full = build_menu(k)
     by_name = {ev[0]: ev for ev in full}
